@@ -1,4 +1,4 @@
-import MaltModel.Proofs.C18Sem3
+import MaltModel.Proofs.C18Sem3b
 /- C18, semantics part 4: the operands of one node. -/
 set_option linter.unusedSimpArgs false
 namespace Malt.Anf
@@ -66,43 +66,6 @@ theorem writess_sub_names : ∀ (es : List Expr) (y : String), y ∈ writesEs es
       · exact Or.inl (writes_sub_names e y h)
       · exact Or.inr (writess_sub_names es y h)
 end
-
-theorem visitE_kind_frag {cfg : Config} {e : Expr} {n : Nat} {e' : Expr} {D : List Stmt} {n' : Nat}
-    (hf : fragE e = true) (h : visitE cfg e n = .ok (e', D, n')) : kindOf e' = kindOf e ∧ isTrivial e' = isTrivial e := by
-  cases e with
-  | name => vopen h; vclose h; obtain ⟨rfl, -, -⟩ := h; exact ⟨rfl, rfl⟩
-  | const => vopen h; vclose h; obtain ⟨rfl, -, -⟩ := h; exact ⟨rfl, rfl⟩
-  | attr => vopen h; vclose h; obtain ⟨_, _, _, _, rfl, -, -⟩ := h; exact ⟨rfl, rfl⟩
-  | subscript => vopen h; vclose h; obtain ⟨_, _, _, _, _, _, _, _, rfl, -, -⟩ := h; exact ⟨rfl, rfl⟩
-  | call => vopen h; vclose h; obtain ⟨_, _, _, _, _, _, _, _, _, _, _, _, rfl, -, -⟩ := h; exact ⟨rfl, rfl⟩
-  | unary => vopen h; vclose h; obtain ⟨_, _, _, _, rfl, -, -⟩ := h; exact ⟨rfl, rfl⟩
-  | binop =>
-    simp only [visitE] at h
-    split at h
-    · simp at h
-    · vopen h; vclose h; obtain ⟨_, _, _, _, _, _, _, _, rfl, -, -⟩ := h; exact ⟨rfl, rfl⟩
-  | compare i l ops rs =>
-    simp only [visitE] at h
-    split at h
-    · simp at h
-    · vopen h; vclose h; obtain ⟨_, _, _, _, _, _, _, _, rfl, -, -⟩ := h; exact ⟨rfl, rfl⟩
-  | seq i k es c =>
-    cases k
-    · vopen h
-      obtain ⟨_, _, _, _, h⟩ := h
-      split at h <;> (vclose h; obtain ⟨rfl, -, -⟩ := h; exact ⟨rfl, rfl⟩)
-    · vopen h
-      obtain ⟨_, _, _, _, h⟩ := h
-      split at h <;> (vclose h; obtain ⟨rfl, -, -⟩ := h; exact ⟨rfl, rfl⟩)
-    · vopen h; vclose h; obtain ⟨_, _, _, _, rfl, -, -⟩ := h; exact ⟨rfl, rfl⟩
-  | namedexpr => vopen h; vclose h; obtain ⟨_, _, _, _, _, _, _, _, rfl, -, -⟩ := h; exact ⟨rfl, rfl⟩
-  | _ => simp [fragE] at hf
-
-theorem okChild_visit_frag {cfg : Config} {pk f : String} {e : Expr} {n : Nat} {e' : Expr} {D : List Stmt} {n' : Nat}
-    (hf : fragE e = true) (hf' : fragE e' = true) (h : visitE cfg e n = .ok (e', D, n')) :
-    okChild cfg pk f e' = okChild cfg pk f e := by
-  have hk := visitE_kind_frag hf h
-  rw [okChild_plain cfg pk f e' (frag_not_wrapper hf'), okChild_plain cfg pk f e (frag_not_wrapper hf), hk.1, hk.2]
 
 /-- what the induction provides for one operand -/
 def SimHyp (O : Oracle) (cfg : Config) (c : Expr) : Prop :=
@@ -204,37 +167,80 @@ theorem simKids (O : Oracle) (cfg : Config) (pk : String) : ∀ (fks : List (Str
               omega
           have := sim_cons_hoisted O hc ihr fc.frag hframe
           simpa [List.append_assoc] using this
-      · -- (B) the operand is an atom that stays in place and is not rebound later
+      · -- (B) what is left of the operand is pure, and no later operand rebinds a variable it mentions
         simp only [Bool.and_eq_true] at hB
-        obtain ⟨hat, hdis⟩ := hB
-        obtain ⟨hatom, hokat⟩ := atomStay_spec hat
-        rw [atom_visit cfg hatom n] at hvc
-        simp only [Except.ok.injEq, Prod.mk.injEq] at hvc
-        obtain ⟨rfl, rfl, rfl⟩ := hvc
-        rw [ensure_ok cfg pk f c m hokat] at hE1
-        simp only [Prod.mk.injEq] at hE1; obtain ⟨rfl, rfl, rfl⟩ := hE1
-        have ihr := simKids O cfg pk rest _ r1 d2 _ m r2 h2 n2' hfr.2 hntr hpo.2 hihr hvr hle hE2
+        obtain ⟨hrp, hdis⟩ := hB
+        have pc1 : pureE c1 = true := visitE_respure cfg c n c1 d1 _ hfr.1 hrp hvc
+        have hp : PureAt O c1 := fun σ τ h => pure_eval O c1 fc.frag pc1 σ τ h
+        obtain ⟨nc, lc⟩ := visitE_ninv cfg (fun y => y ∈ namesE c) c n c1 d1 _ hfr.1 (fun y hy => hy) hvc
+        obtain ⟨nr, lr⟩ := visitEs_ninv cfg (fun y => y ∈ namesEs (rest.map (·.2))) _ _ r1 d2 _ hfr.2 (fun y hy => hy) hvr
         have hh2 := ensureFs_finv (W := fun y => y ∈ writesEs (rest.map (·.2))) fr.frag fr.writes hE2
-        have hframe : ∀ σ, ∀ y ∈ namesE c, (execB O (d2 ++ h2) σ).2.get y = σ.get y := by
-          intro σ y hy
-          have hyw : ¬ (y ∈ writesEs (rest.map (·.2))) := disjoint_spec hdis y hy
-          have hynt : isTempName y = false := hnt y (Or.inl hy)
-          have hyk : ∀ a b k, a ≤ k → k < b → y ≠ tmpName k := by
-            intro a b k _ _ heq
-            rw [heq, isTempName_tmpName] at hynt
-            exact Bool.noConfusion hynt
-          rw [execB_append]
-          have e1 := exec_hoists O _ d2 _ _ σ fr.hoists
-          rcases hx : execB O d2 σ with ⟨o, σ1⟩
-          rw [hx] at e1
-          have g1 := e1.2 y hyw (hyk _ _)
-          cases o with
-          | normal =>
-            simp only
-            rw [(exec_hoists O _ h2 m n2' σ1 hh2).2 y hyw (hyk m n2')]
-            exact g1
-          | _ => exact g1
-        have := sim_cons_atom O hatom (fun y hy => hnt y (Or.inl hy)) hframe ihr
-        simpa using this
+        -- the names of the residual: not rebound later, and not a temporary created later
+        have hc1 : ∀ y ∈ namesE c1, ¬ (y ∈ writesEs (rest.map (·.2))) ∧ ∀ k, k1 ≤ k → y ≠ tmpName k := by
+          intro y hy
+          rcases nc.names y hy with h | ⟨k0, h1, h2, rfl⟩
+          · refine ⟨disjoint_spec hdis y h, fun k _ heq => ?_⟩
+            have := hnt y (Or.inl h)
+            rw [heq, isTempName_tmpName] at this
+            exact Bool.noConfusion this
+          · refine ⟨fun hw => ?_, fun k hk heq => ?_⟩
+            · have := wnt _ hw
+              rw [isTempName_tmpName] at this
+              exact Bool.noConfusion this
+            · have := tmpName_inj heq
+              omega
+        have hfr_d2 : ∀ σ, ∀ y ∈ namesE c1, (execB O d2 σ).2.get y = σ.get y := fun σ y hy =>
+          (exec_hoists O _ d2 _ _ σ fr.hoists).2 y (hc1 y hy).1 (fun k hk _ => (hc1 y hy).2 k hk)
+        have hmm1 : m ≤ m1 := (ensure_finv (W := fun _ => True) fc.frag (fun _ _ => trivial) hE1).hoists.le
+        have hm1 : k1 ≤ m1 := by omega
+        have hfr_h2 : ∀ σ, ∀ y ∈ namesE c1, (execB O h2 σ).2.get y = σ.get y := fun σ y hy =>
+          (exec_hoists O _ h2 _ _ σ hh2).2 y (hc1 y hy).1 (fun k hk _ => (hc1 y hy).2 k (by omega))
+        have ihr := simKids O cfg pk rest _ r1 d2 _ m1 r2 h2 n2' hfr.2 hntr hpo.2 hihr hvr (by omega) hE2
+        rcases ensure_frag_cases cfg pk f c1 m fc.frag with ⟨hk, hok⟩ | ⟨hk, hok⟩
+        · -- it stays in place
+          rw [hk] at hE1; simp only [Prod.mk.injEq] at hE1; obtain ⟨rfl, rfl, rfl⟩ := hE1
+          have hframe : ∀ σ, ∀ y ∈ namesE c1, (execB O (d2 ++ h2) σ).2.get y = σ.get y := by
+            intro σ y hy
+            rw [execB_append]
+            have g1 := hfr_d2 σ y hy
+            rcases hx : execB O d2 σ with ⟨o, σ1⟩
+            rw [hx] at g1
+            cases o with
+            | normal => simp only; rw [hfr_h2 σ1 y hy]; exact g1
+            | _ => exact g1
+          have := sim_cons_pure_stay O hc ihr hp hframe
+          simpa [List.append_assoc] using this
+        · -- it is hoisted after the statements nested in the later operands
+          rw [hk] at hE1; simp only [Prod.mk.injEq] at hE1; obtain ⟨rfl, rfl, rfl⟩ := hE1
+          have ntm : ∀ y, y ∈ namesEs r1 → y ≠ tmpName m := by
+            intro y hy heq
+            rcases nr.names y hy with h | ⟨k0, h1, h2, h3⟩
+            · have := hntr y h
+              rw [heq, isTempName_tmpName] at this
+              exact Bool.noConfusion this
+            · have := tmpName_inj (heq.symm.trans h3)
+              omega
+          have sp := ensureFs_spec (P := fun x => fragE x = true ∧ ∀ y ∈ namesE x, ¬ (y = tmpName m)) fr.frag
+            (fun x hx => ⟨frags_mem fr.frag hx, fun y hy => ntm y (names_mem hx hy)⟩) hE2
+          have hfrt : ∀ σ, (execB O h2 σ).2.get (tmpName m) = σ.get (tmpName m) := by
+            intro σ
+            refine (exec_hoists O _ h2 (m + 1) n2' σ hh2).2 (tmpName m) ?_ ?_
+            · intro hw
+              have := wnt _ hw
+              rw [isTempName_tmpName] at this
+              exact Bool.noConfusion this
+            · intro k hk1' _ heq
+              have := tmpName_inj heq
+              omega
+          have hcH := fun σ τ => execB_congr O (fun y => y = tmpName m) h2 (m + 1) n2' σ τ sp.1
+          have hcr : CongK (fun y => y = tmpName m) (evalOpts O r2) := by
+            refine evalOpts_congr O _ r2 sp.2.1 (fun y hy => ?_)
+            rcases sp.2.2 y hy with h | ⟨k, h1, _, h3⟩
+            · exact ntm y h
+            · intro heq
+              have := tmpName_inj (heq.symm.trans h3)
+              omega
+          have := sim_cons_pure_hoisted O hc ihr fc.frag hp hfr_d2 hfrt hcH hcr
+          simpa [List.append_assoc] using this
 
 end Malt.Anf
